@@ -294,6 +294,7 @@ def main(run):
     # ------------------------------------------------------------ exc: model and library on the same line
     lines = [c[0] for c in exc]
     om, oc, crashes = tie.run_both(model, drv, lines)
+    ocx = oc
     run.cov["driver_crashes"] = len(crashes)
     items = []
     ndiff = 0
@@ -360,4 +361,22 @@ def main(run):
             elif o.startswith("nack:"):
                 run.hist("handler_calls", "NACK")
     run.cov["disagreements"] = ndiff
+    # ------------------------------------------------------------ sanitizer variant (thorough)
+    if not quick and not replay_only:
+        drv_asan = vlib.build_driver("h_exchange", ["h_exchange.c"], variant="asan", wraps=WRAPS)
+        sub = [c[0] for c in exc[:15000]] + [c[0] for c in exe[::7][:15000]]
+        oa, cra = vlib.run_lines_robust(drv_asan, sub, env={"ASAN_OPTIONS": "detect_leaks=0"})
+        base = dict(zip([c[0] for c in exc], ocx))
+        base.update(dict(zip([c[0] for c in exe], oc)))
+        run.cov["asan_cases"] = len(sub)
+        run.cov["asan_crashes"] = len(cra)
+        for idx, rc, err in cra[:2]:
+            V.violation("the ASan/UBSan build of the library stops on a case: rc=%d %s" % (rc, err[-300:].replace("\n", " ")),
+                        "case: %s\nrc: %d\nstderr: %s\n" % (sub[idx], rc, err), "asan")
+        nd = sum(1 for l, o in zip(sub, oa) if not o.startswith("CRASH") and base.get(l) != o)
+        run.cov["asan_output_differences"] = nd
+        if nd:
+            l, o = next((l, o) for l, o in zip(sub, oa) if not o.startswith("CRASH") and base.get(l) != o)
+            V.violation("the sanitizer build behaves differently from the plain build on %d cases" % nd,
+                        "case: %s\nplain: %s\nasan:  %s\n" % (l, base.get(l), o), "asan", no_input=True)
     run.cov["tie_seconds"] = round(time.time() - t0, 1)
